@@ -1101,6 +1101,9 @@ func applyMutations(tbl *table, r *btpb.Row, muts []*btpb.Mutation, now bigtable
 		case *btpb.Mutation_DeleteFromRow_:
 			r.Families = nil
 		case *btpb.Mutation_DeleteFromFamily_:
+			if _, ok := fs[mut.DeleteFromFamily.FamilyName]; !ok {
+				return fmt.Errorf("unknown family %q", mut.DeleteFromFamily.FamilyName)
+			}
 			if f := getFamily(r, mut.DeleteFromFamily.FamilyName); f != nil {
 				f.Columns = nil
 			}
